@@ -7,6 +7,7 @@ import (
 	"crypto/sha256"
 	"encoding/binary"
 	"fmt"
+	"strings"
 	"testing"
 
 	bitcointypes "github.com/goatnetwork/goat/x/bitcoin/types"
@@ -42,10 +43,10 @@ func refMerkle(leaf, root, path []byte, pos uint32) bool {
 
 // MerkleCase is a data-only description of one claim against a tree.
 type MerkleCase struct {
-	N        int    `json:"n"`         // leaves in the tree
-	Seed     uint64 `json:"seed"`      // leaf content seed
-	X        int    `json:"x"`         // presented leaf (mod N)
-	PosKind  int    `json:"pos_kind"`  // 0 true, 1 +1, 2 -1, 3 alias p+j*2^d, 4 bit flip, 5 random, 6 p+j*2^len(path)
+	N        int    `json:"n"`        // leaves in the tree
+	Seed     uint64 `json:"seed"`     // leaf content seed
+	X        int    `json:"x"`        // presented leaf (mod N)
+	PosKind  int    `json:"pos_kind"` // 0 true, 1 +1, 2 -1, 3 alias p+j*2^d, 4 bit flip, 5 random, 6 p+j*2^len(path)
 	PosArg   uint32 `json:"pos_arg"`
 	PathKind int    `json:"path_kind"` // 0 genuine, 1 truncated, 2 extended, 3 swapped, 4 bit flip, 5 other leaf's path, 6 ragged, 7 empty
 	PathArg  int    `json:"path_arg"`
@@ -356,7 +357,7 @@ func TestC04_Exhaustive(t *testing.T) {
 // The deposit path that relies on the proof verification: position and proof
 // mutations only, decided by the deposit oracle (shared with C03).
 func TestC04_DepositSlice(t *testing.T) {
-	posMuts := []int{mutProofTrunc, mutProofExtend, mutProofSwap, mutProofBitFlip, mutPosNeighbour, mutPosAlias, mutPosRandom, mutDupMirror}
+	posMuts := []int{mutProofTrunc, mutProofExtend, mutProofSwap, mutProofBitFlip, mutPosNeighbour, mutPosAlias, mutPosRandom, mutDupMirror, mutCoinbaseLater, mutCoinbaseLater}
 	RunProp(t, Prop[DepositCase]{
 		ID: "C04", Name: "deposit-slice", Quick: 400, Thor: 12_000,
 		Gen: func(t *rapid.T) DepositCase {
@@ -378,6 +379,45 @@ func TestC04_DepositSlice(t *testing.T) {
 			return c
 		},
 		Run:  runDepositHandler,
-		Rule: "the deposit path that relies on the verification: model blocks (1-33 transactions, coinbase deposits below and above the maturity depth) with the claimed position and the proof mutated (neighbour, alias p+k*2^depth, random position, truncated/extended/permuted/bit-flipped proof, the same deposit under its mirror position) through the registered NewDeposits handler; oracle = deposit oracle of C03 (a coinbase presented under another position must be rejected)",
+		Rule: "the deposit path that relies on the verification: model blocks (1-33 transactions, coinbase deposits below and above the maturity depth) with the claimed position and the proof mutated (neighbour, alias p+k*2^depth, random position, truncated/extended/permuted/bit-flipped proof, the same deposit under its mirror position, the block's immature coinbase paying the same script as a later item of the batch) through the registered NewDeposits handler; oracle = deposit oracle of C03 (a coinbase presented under another position must be rejected)",
+	})
+}
+
+// The withdrawal path that relies on the proof verification: FinalizeWithdrawal with the claimed transaction id,
+// position and proof varied, decided by the withdrawal state machine (shared with C05); only disagreements about
+// finalisation belong to this property.
+func TestC04_WithdrawalSlice(t *testing.T) {
+	RunProp(t, Prop[WdCase]{
+		ID: "C04", Name: "withdrawal-slice", Quick: 240, Thor: 6000,
+		Gen: func(t *rapid.T) WdCase {
+			c := genWdCase(t)
+			for i := range c.Blocks {
+				tx := c.Blocks[i].Tx
+				if tx == nil || i < 4 || rapid.IntRange(0, 1).Draw(t, "keep") == 0 {
+					continue
+				}
+				// more finalisations: genuine ones and ones that name a foreign transaction id, another position or a damaged proof
+				tx.Kind = "finalize"
+				tx.Cand = rapid.SampledFrom([]int{0, 0, 1, 2, -1, -1, -2}).Draw(t, "cand")
+				if rapid.IntRange(0, 2).Draw(t, "clean") == 0 {
+					tx.Mined, tx.Pos, tx.Proof, tx.AtZero = 0, 0, 0, false
+				} else {
+					tx.Mined = rapid.SampledFrom([]int{0, 0, 0, 1, 2}).Draw(t, "mined")
+					tx.Pos = rapid.IntRange(0, 3).Draw(t, "pos")
+					tx.Proof = rapid.SampledFrom([]int{0, 0, 1, 2}).Draw(t, "proof")
+					tx.AtZero = rapid.IntRange(0, 5).Draw(t, "atZero") == 0
+				}
+			}
+			return c
+		},
+		Run: func(c WdCase) Outcome {
+			o := runWdCase(c)
+			if o.Fail != nil && !strings.Contains(o.Fail.Signature, "/finalize") && !strings.Contains(o.Fail.Signature, "paid") {
+				o.Classes = append(o.Classes, "inner-oracle-failed")
+				o.Fail = nil
+			}
+			return o
+		},
+		Rule: "withdrawal lifecycles (C05's world) with many finalisations: the claimed transaction id is a voted candidate or a foreign one, the block is voted / not voted / has another header, the position is true / 0 / alias / neighbour, the proof genuine / bit-flipped / empty, the transaction mined first in its block or not; a finalisation is accepted iff the claimed id is a voted candidate of that batch proven at its true position in a voted block, and the paid notice names exactly that transaction; non-trivial as in C05; evaluations count blocks",
 	})
 }
